@@ -52,7 +52,7 @@ thread_local! {
     static LAST: RefCell<Option<PanicSig>> = const { RefCell::new(None) };
 }
 static FOREIGN: Mutex<Option<PanicSig>> = Mutex::new(None);
-static QUIET: AtomicBool = AtomicBool::new(true);
+static QUIET: AtomicBool = AtomicBool::new(false);
 static INIT: Once = Once::new();
 
 pub fn set_quiet(q: bool) {
